@@ -103,8 +103,8 @@ def check(ctx, rep):
                                 tgt = b
                         if tgt is None:
                             tgt = st['otherwise']
-                        if any(r in res.reachable([tgt], removed_blocks=[sb]) and
-                               r not in res.reachable([0], removed_edges=[(sb, tgt)]) for r in removes):
+                        if any(r in res.reachable_ps([tgt], removed_blocks=[sb]) and
+                               r not in res.reachable_ps([0], removed_edges=[(sb, tgt)]) for r in removes):
                             removable.add(name)
         # does register() store every effect's resolver, whatever its state?
         inserts = [bb for bb, t in reg.calls('slab::Slab::insert')]
